@@ -204,7 +204,12 @@ func indexIngest(repo Repo, index *types.Index, conf config.Config, locked bool)
 			if err != nil || curResp.Manifests == nil {
 				continue
 			}
-			valid, refSubj, refResp := indexValidReferrer(repo, curResp, locked)
+			valid, refSubj, refResp, ordinary := indexValidReferrer(repo, curResp, locked)
+			if ordinary {
+				// the tag looks like a fallback tag but the index lists manifests without a subject,
+				// it is not an index of referrers and the tag is left alone
+				continue
+			}
 			// check for a different response already in the index
 			if valid {
 				if resp, ok := referrerResponse[refSubj.String()]; ok && resp.Digest != desc.Digest {
@@ -316,9 +321,11 @@ func indexIngest(repo Repo, index *types.Index, conf config.Config, locked bool)
 // The return is true for valid responses, the digest is for the subject if valid.
 // The returned map is of subjects with a list of descriptors to include in the referrers response to that subject.
 // Errors getting manifests are ignored and those descriptors referencing those manifests are discarded.
-func indexValidReferrer(repo Repo, index types.Index, locked bool) (bool, digest.Digest, map[digest.Digest][]types.Descriptor) {
+// The last return is true when the index only lists manifests that have no subject.
+func indexValidReferrer(repo Repo, index types.Index, locked bool) (bool, digest.Digest, map[digest.Digest][]types.Descriptor, bool) {
 	var subject digest.Digest
 	valid := true
+	noSubject := 0
 	responses := map[digest.Digest][]types.Descriptor{}
 	for _, desc := range index.Manifests {
 		rdr, err := repo.blobGet(desc.Digest, locked)
@@ -335,6 +342,9 @@ func indexValidReferrer(repo Repo, index types.Index, locked bool) (bool, digest
 		}
 		refSubj, refDesc, err := types.ManifestReferrerDescriptor(raw, desc)
 		if err != nil {
+			if errors.Is(err, types.ErrNotFound) {
+				noSubject++
+			}
 			valid = false
 			continue
 		}
@@ -362,7 +372,7 @@ func indexValidReferrer(repo Repo, index types.Index, locked bool) (bool, digest
 	if !valid {
 		subject = ""
 	}
-	return valid, subject, responses
+	return valid, subject, responses, noSubject > 0 && len(responses) == 0
 }
 
 func layoutVerify(b []byte) bool {
